@@ -22,7 +22,6 @@ func newThrModel() *thrModel {
 	return &thrModel{thr: map[string]int{}, sinks: map[string]int{}, set: map[string]bool{}}
 }
 
-
 // checkStatus is C02's oracle for one Send.
 func checkStatus(run *rt.Run, w *World, o *SendObs, thr, thrSinks int, ctxInfo any) {
 	wit := func() any {
